@@ -1163,10 +1163,21 @@ impl<'a> TextGen<'a> {
         }
         if crlf {
             tags.push("crlf");
-            if self.r.chance(1, 6) {
+            if self.r.chance(1, 4) {
+                // mixed terminators: every CR LF becomes a bare LF with probability 1/3 (at least one does), so
+                // that bare LFs end all kinds of lines - code, blank, comment and verbatim-copied ones
                 tags.push("mixed-eol");
-                if let Some(k) = s.find("\r\n") {
-                    s.replace_range(k..k + 2, "\n");
+                let n = s.matches("\r\n").count() as u64;
+                if n > 0 {
+                    let forced = self.r.below(n);
+                    let mut out = String::with_capacity(s.len());
+                    for (k, piece) in s.split("\r\n").enumerate() {
+                        if k > 0 {
+                            out.push_str(if (k as u64 - 1) == forced || self.r.chance(1, 3) { "\n" } else { "\r\n" });
+                        }
+                        out.push_str(piece);
+                    }
+                    s = out;
                 }
             }
         }
